@@ -34,6 +34,11 @@ type SBlock struct {
 	Storage  map[string]map[string]string `json:"storage,omitempty"`   // addr -> key -> value
 	Declared map[string]string            `json:"declared,omitempty"`  // sierra class hash -> compiled class hash
 	Migrated map[string]string            `json:"migrated,omitempty"`  // sierra class hash -> new compiled class hash
+	// entries of the diff that do NOT change the abstract state: Cairo-0 declarations (no class-trie leaf) and
+	// DeclaredV1Classes entries for which the caller supplies no definition (a class the node already has: both
+	// backends skip the class-trie write)
+	DeclaredV0 []string          `json:"declared_v0,omitempty"`
+	NoDef      map[string]string `json:"declared_without_definition,omitempty"`
 	// updates applied on the SAME parent state before this block and then dropped (never part of the chain)
 	Before []Discarded `json:"before,omitempty"`
 }
@@ -286,6 +291,15 @@ func toUpdate(b *SBlock, oldRoot *felt.Felt) (*core.StateUpdate, map[felt.Felt]c
 		classes[hexFelt(ch)] = dummyClass(i)
 		i++
 	}
+	for ch, casm := range b.NoDef {
+		f := hexFelt(casm)
+		d.DeclaredV1Classes[hexFelt(ch)] = &f
+	}
+	for _, ch := range b.DeclaredV0 {
+		f := hexFelt(ch)
+		d.DeclaredV0Classes = append(d.DeclaredV0Classes, &f)
+		classes[f] = &core.DeprecatedCairoClass{Abi: json.RawMessage("[]"), Program: "AA=="}
+	}
 	return &core.StateUpdate{OldRoot: oldRoot, StateDiff: d}, classes
 }
 
@@ -328,22 +342,37 @@ func runNewState(c *StateCase) (tr trace) {
 				}
 			}
 			var newRoot felt.Felt
-			err := disk.Write(func(batch db.Batch) error {
-				st, err := state.New(&prev, sdb, batch)
-				if err != nil {
+			apply := func(old *felt.Felt) error {
+				return disk.Write(func(batch db.Batch) error {
+					st, err := state.New(&prev, sdb, batch)
+					if err != nil {
+						return err
+					}
+					su, classes := toUpdate(b, old)
+					if err := st.Update(hdr, su, classes, true); err != nil {
+						return err
+					}
+					newRoot, err = st.Commitment(b.Version)
 					return err
+				})
+			}
+			// OldRoot = the root STORED for the previous block (what the feeder gateway sends and what
+			// Blockchain.Store passes on), not a root recomputed under this block's version
+			stored := prev
+			err := apply(&stored)
+			if err != nil && isRootMismatch(err) {
+				rd, e := state.NewStateReader(&prev, sdb)
+				if e != nil {
+					return e
 				}
-				old, err := st.Commitment(b.Version)
-				if err != nil {
-					return err
+				if old, e := rd.Commitment(b.Version); e == nil && !old.Equal(&prev) {
+					if e2 := apply(&old); e2 == nil {
+						tr.OldRej = append(tr.OldRej, n)
+						tr.OldRejErr = err.Error()
+						err = nil
+					}
 				}
-				su, classes := toUpdate(b, &old)
-				if err := st.Update(hdr, su, classes, true); err != nil {
-					return err
-				}
-				newRoot, err = st.Commitment(b.Version)
-				return err
-			})
+			}
 			if err != nil {
 				return fmt.Errorf("block %d: %w", n, err)
 			}
@@ -402,19 +431,32 @@ func runOldState(c *StateCase) (tr trace) {
 				}
 			}
 			var newRoot felt.Felt
-			err := disk.Update(func(txn db.IndexedBatch) error {
-				st := deprecatedstate.New(txn)
-				old, err := st.Commitment(b.Version)
-				if err != nil {
+			apply := func(old *felt.Felt) error {
+				return disk.Update(func(txn db.IndexedBatch) error {
+					st := deprecatedstate.New(txn)
+					su, classes := toUpdate(b, old)
+					if err := st.Update(hdr, su, classes, true); err != nil {
+						return err
+					}
+					var err error
+					newRoot, err = st.Commitment(b.Version)
 					return err
+				})
+			}
+			stored := prev
+			err := apply(&stored)
+			if err != nil && isRootMismatch(err) {
+				txn := disk.NewIndexedBatch()
+				old, e := deprecatedstate.New(txn).Commitment(b.Version)
+				_ = txn.Close()
+				if e == nil && !old.Equal(&prev) {
+					if e2 := apply(&old); e2 == nil {
+						tr.OldRej = append(tr.OldRej, n)
+						tr.OldRejErr = err.Error()
+						err = nil
+					}
 				}
-				su, classes := toUpdate(b, &old)
-				if err := st.Update(hdr, su, classes, true); err != nil {
-					return err
-				}
-				newRoot, err = st.Commitment(b.Version)
-				return err
-			})
+			}
 			if err != nil {
 				return fmt.Errorf("block %d: %w", n, err)
 			}
@@ -443,6 +485,12 @@ func runOldState(c *StateCase) (tr trace) {
 		}
 	}
 	return tr
+}
+
+// the error of the old-root / new-root verification of either backend
+func isRootMismatch(err error) bool {
+	m := err.Error()
+	return strings.Contains(m, "state commitment mismatch") || strings.Contains(m, "does not match the expected root")
 }
 
 func hasMigration(c *StateCase) bool {
@@ -499,6 +547,14 @@ func runChain(c *StateCase, newState bool) (tr trace) {
 			if !head.GlobalStateRoot.Equal(blk.GlobalStateRoot) || head.Number != uint64(n) {
 				return fmt.Errorf("block %d: stored header root %s differs from the root Finalise computed %s", n, head.GlobalStateRoot.String(), blk.GlobalStateRoot.String())
 			}
+			// the state update the node stores for block n must start at the root it stored for block n-1
+			if stored, err := bc.StateUpdateByNumber(uint64(n)); err != nil {
+				return fmt.Errorf("block %d: stored state update: %w", n, err)
+			} else if !stored.OldRoot.Equal(&prevRoot) {
+				tr.OldStored = append(tr.OldStored, n)
+			} else if !stored.NewRoot.Equal(blk.GlobalStateRoot) {
+				return fmt.Errorf("block %d: stored StateUpdate.NewRoot %s differs from the header root %s", n, stored.NewRoot.String(), blk.GlobalStateRoot.String())
+			}
 			tr.Roots = append(tr.Roots, feltHex(blk.GlobalStateRoot))
 			prevRoot = *blk.GlobalStateRoot
 			parent = *blk.Hash
@@ -512,6 +568,111 @@ func runChain(c *StateCase, newState bool) (tr trace) {
 		}
 	}
 	return tr
+}
+
+// runStore applies the blocks through Blockchain.Store (the sync path): OldRoot = the root stored for the
+// previous block, NewRoot = roots[n] (the root the state layer computed for the same history), new root
+// verified by the node. Stops at the first rejected block; a rejection with the root-mismatch error is
+// recorded in OldRej (the caller knows whether the state layer rejected the stored old root there too).
+func runStore(c *StateCase, newState bool, roots []string) (tr trace) {
+	err, panicked, _ := lib.Try(func() error {
+		disk := memory.New()
+		bc := blockchain.New(disk, &networks.Mainnet, blockchain.WithNewState(newState))
+		prevRoot := felt.Zero
+		parent := felt.Zero
+		for n := range c.Blocks {
+			if n >= len(roots) {
+				break
+			}
+			b := &c.Blocks[n]
+			old := prevRoot
+			su, classes := toUpdate(b, &old)
+			nr := hexFelt(roots[n])
+			su.NewRoot = &nr
+			blk := simBlock(uint64(n), b.Version)
+			p := parent
+			blk.ParentHash = &p
+			blk.GlobalStateRoot = &nr
+			h := felt.FromUint64[felt.Felt](0x5107e000 + uint64(n))
+			blk.Hash = &h
+			su.BlockHash = &h
+			z := felt.Zero
+			if err := bc.Store(blk, &core.BlockCommitments{TransactionCommitment: &z, EventCommitment: &z, ReceiptCommitment: &z, StateDiffCommitment: &z}, su, classes); err != nil {
+				if isRootMismatch(err) {
+					tr.OldRej = append(tr.OldRej, n)
+					tr.OldRejErr = err.Error()
+					return nil
+				}
+				return fmt.Errorf("block %d: Store: %w", n, err)
+			}
+			head, err := bc.HeadsHeader()
+			if err != nil {
+				return fmt.Errorf("block %d: head: %w", n, err)
+			}
+			if !head.GlobalStateRoot.Equal(&nr) || head.Number != uint64(n) {
+				return fmt.Errorf("block %d: stored header root %s differs from the root of the block %s", n, head.GlobalStateRoot.String(), nr.String())
+			}
+			tr.Roots = append(tr.Roots, roots[n])
+			prevRoot = nr
+			parent = h
+		}
+		return nil
+	})
+	if err != nil {
+		tr.Err = err.Error()
+		if panicked {
+			tr.Err = "panic: " + tr.Err
+		}
+	}
+	return tr
+}
+
+// chainable: Blockchain.Finalise / Store only take protocol versions the node supports (CheckBlockVersion)
+func chainable(c *StateCase) bool {
+	for n := range c.Blocks {
+		// (the chain layer insists on a definition for every declared class: "class not available in newClasses")
+		if !supportedVersion(c.Blocks[n].Version) || len(c.Blocks[n].NoDef) > 0 {
+			return false
+		}
+		for _, d := range c.Blocks[n].Before {
+			if !supportedVersion(d.Diff.Version) || len(d.Diff.NoDef) > 0 {
+				return false
+			}
+		}
+	}
+	return !hasMigration(c)
+}
+
+func supportedVersion(v string) bool { return v != "1.0.0" }
+
+// formulaSwitches: the blocks n > 0 at which the root stored for block n-1 (commitment of the state under the
+// version of block n-1) is not the commitment of the same state under the version of block n: the class trie
+// is empty, the contract trie is not, and exactly one of the two versions is < 0.14.0.
+func formulaSwitches(c *StateCase, keepEmptySystem bool) map[int]bool {
+	out := map[int]bool{}
+	a := newAbs()
+	for n := range c.Blocks {
+		if n > 0 {
+			for _, keep := range []bool{false, keepEmptySystem} {
+				r1, _, _ := a.commitment(c.Blocks[n-1].Version, keep)
+				r2, _, _ := a.commitment(c.Blocks[n].Version, keep)
+				if !r1.Equal(&r2) {
+					out[n] = true
+				}
+			}
+		}
+		a.apply(&c.Blocks[n])
+	}
+	return out
+}
+
+func subsetOf(xs []int, m map[int]bool) bool {
+	for _, x := range xs {
+		if !m[x] {
+			return false
+		}
+	}
+	return true
 }
 
 // ---- discarded updates -----------------------------------------------------------------------------
@@ -700,7 +861,21 @@ func brokenPrimitiveState(c *StateCase, real []string) string {
 
 // ---- generator ------------------------------------------------------------------------------------
 
-var versions = []string{"0.13.1", "0.13.2", "0.13.6", "0.14.0", "0.14.1"}
+// ascending; "" parses as 0.0.0, "0.14" as 0.14.0; "0.9.9" / "0.13.10" are string-order traps; "1.0.0" is not
+// supported by the chain layer (state layer only)
+var versions = []string{"", "0.9.9", "0.13.1", "0.13.2", "0.13.6", "0.13.10", "0.14", "0.14.0", "0.14.1", "1.0.0"}
+
+func pickVersionFrom(r *lib.RNG, from int) (string, int) {
+	// the common ones more often
+	for {
+		i := from + r.Intn(len(versions)-from)
+		v := versions[i]
+		if (v == "" || v == "0.9.9" || v == "0.13.10" || v == "0.14" || v == "1.0.0") && r.Chance(2, 3) {
+			continue
+		}
+		return v, i
+	}
+}
 
 type statePools struct {
 	addrs, keys, classes []string
@@ -780,6 +955,12 @@ func genBlock(r *lib.RNG, a *absState, p *statePools, ver string) SBlock {
 			b.Storage[addr] = st
 		}
 	}
+	if r.Chance(1, 8) {
+		b.DeclaredV0 = []string{lib.Pick(r, []string{"c0c0", "c0c1"})}
+	}
+	if r.Chance(1, 8) {
+		b.NoDef = map[string]string{lib.Pick(r, []string{"c1a5d", "c1a5e"}): "ca5a1"}
+	}
 	if r.Chance(1, 3) {
 		ch := lib.Pick(r, p.classes)
 		if _, ok := a.classes[ch]; !ok {
@@ -798,7 +979,7 @@ func genStateCase(r *lib.RNG, nBlocks int) *StateCase {
 	p := genPools(r)
 	a := newAbs()
 	// one protocol-version regime per case, sometimes switching once
-	ver := lib.Pick(r, versions)
+	ver, vi := pickVersionFrom(r, 0)
 	switchAt := -1
 	if r.Chance(1, 3) {
 		switchAt = r.Intn(nBlocks)
@@ -806,7 +987,8 @@ func genStateCase(r *lib.RNG, nBlocks int) *StateCase {
 	withDiscards := r.Chance(1, 2)
 	for n := 0; n < nBlocks; n++ {
 		if n == switchAt {
-			ver = lib.Pick(r, versions)
+			// protocol versions of a chain never decrease
+			ver, vi = pickVersionFrom(r, vi)
 		}
 		var before []Discarded
 		if withDiscards && r.Chance(2, 3) {
@@ -826,7 +1008,7 @@ func genStateCase(r *lib.RNG, nBlocks int) *StateCase {
 // one contract with a large storage diff in a single block (> 100 updates: parallel hashing and
 // parallel node collection in core/state), then blocks that overwrite / zero a part of it
 func genLargeStateCase(r *lib.RNG) *StateCase {
-	ver := lib.Pick(r, versions)
+	ver, _ := pickVersionFrom(r, 0)
 	keys := genKeyPool(r, 251, r.Range(130, 220))
 	st := map[string]string{}
 	for _, k := range keys {
@@ -1007,6 +1189,7 @@ func checkStateCases(f lib.Flags, res *lib.Result, drv *lib.Driver, cases []*Sta
 	type outcome struct {
 		nw, old   trace
 		chN, chO  *trace // through Blockchain.Finalise / Simulate (every 3rd case and all directed ones)
+		stN, stO  *trace // through Blockchain.Store (every 3rd case, offset 1, and all directed ones)
 		want, alt []string
 	}
 	outs := make([]outcome, len(cases))
@@ -1017,9 +1200,14 @@ func checkStateCases(f lib.Flags, res *lib.Result, drv *lib.Driver, cases []*Sta
 			o.old = runOldState(c)
 			// (casm-hash migrations have chain-level validity rules of their own — which class was declared
 			// under which hash version — that the diff generator does not track: state level only)
-			if (i%3 == 0 || family == "state-directed" || family == "replay") && !hasMigration(c) {
+			directed := family == "state-directed" || family == "replay" || family == "state-version-switch"
+			if (i%3 == 0 || directed) && chainable(c) {
 				a, b := runChain(c, true), runChain(c, false)
 				o.chN, o.chO = &a, &b
+			}
+			if (i%3 == 1 || directed) && chainable(c) && o.nw.Err == "" && o.old.Err == "" {
+				a, b := runStore(c, true, o.nw.Roots), runStore(c, false, o.old.Roots)
+				o.stN, o.stO = &a, &b
 			}
 		}) {
 			o.nw.Err = "hang: the state histories did not finish within the deadline"
@@ -1144,6 +1332,131 @@ func checkStateCases(f lib.Flags, res *lib.Result, drv *lib.Driver, cases []*Sta
 				})
 			}
 		}
+		// the same history through Blockchain.Store (sync path: stored old root, new root verified by the node)
+		for _, ch := range []struct {
+			t    *trace
+			name string
+			nw   bool
+		}{{o.stN, "new", true}, {o.stO, "legacy", false}} {
+			if ch.t == nil {
+				continue
+			}
+			res.Hit("state:via-Blockchain.Store")
+			t, name, nw := ch.t, ch.name, ch.nw
+			ref := o.nw
+			if !nw {
+				ref = o.old
+			}
+			rejAtState := map[int]bool{}
+			for _, n := range ref.OldRej {
+				rejAtState[n] = true
+			}
+			switch {
+			case t.Err != "":
+				sig := "blockchain-store-fails-on-valid-block-" + name + "-state"
+				violateOnce(res, sig, func() lib.Violation {
+					return lib.Violation{Sig: sig, What: t.Err,
+						Replay: rep(func(c *StateCase) bool {
+							r := runNewState(c)
+							if !nw {
+								r = runOldState(c)
+							}
+							return r.Err == "" && runStore(c, nw, r.Roots).Err != ""
+						})}
+				})
+			case len(t.OldRej) > 0 && subsetOf(t.OldRej, rejAtState):
+				// the same rejection as at the state layer (reported there)
+				res.Hit("state:Blockchain.Store-rejects-block-at-formula-switch")
+			case len(t.OldRej) > 0:
+				sig := "blockchain-store-rejects-roots-the-state-accepts-" + name + "-state"
+				violateOnce(res, sig, func() lib.Violation {
+					return lib.Violation{Sig: sig, What: fmt.Sprintf("block %d: Blockchain.Store: %s; the state's own Update accepts the same update with the same old and new root", t.OldRej[0], t.OldRejErr),
+						Replay: rep(func(c *StateCase) bool {
+							r := runNewState(c)
+							if !nw {
+								r = runOldState(c)
+							}
+							st := runStore(c, nw, r.Roots)
+							m := map[int]bool{}
+							for _, n := range r.OldRej {
+								m[n] = true
+							}
+							return r.Err == "" && len(st.OldRej) > 0 && !subsetOf(st.OldRej, m)
+						})}
+				})
+			case len(rejAtState) == 0 && len(t.Roots) != len(c.Blocks):
+				res.Fatalf("Blockchain.Store history ended early without an error (%d of %d blocks)", len(t.Roots), len(c.Blocks))
+			}
+		}
+		// the root stored for block n-1 must be accepted as OldRoot of block n; the state update stored for
+		// block n must start at it
+		sw := formulaSwitches(c, false)
+		swAlt := formulaSwitches(c, true)
+		for _, ch := range []struct {
+			t    *trace
+			name string
+			nw   bool
+			sw   map[int]bool
+		}{{&o.nw, "state", true, sw}, {&o.old, "deprecatedstate", false, swAlt}} {
+			t, name, nw, sw := ch.t, ch.name, ch.nw, ch.sw
+			if len(t.OldRej) == 0 {
+				continue
+			}
+			run := func(c *StateCase) trace {
+				if nw {
+					return runNewState(c)
+				}
+				return runOldState(c)
+			}
+			if subsetOf(t.OldRej, sw) {
+				sig := name + "-rejects-stored-old-root-at-commitment-formula-switch"
+				violateOnce(res, sig, func() lib.Violation {
+					return lib.Violation{Sig: sig,
+						What: fmt.Sprintf("core/%s.Update rejects block %d (version %s) whose OldRoot is the root stored for block %d (version %s): %s. "+
+							"The class trie is empty, so the stored root is the pre-0.14.0 commitment (the contract root), but the old root is verified under the NEW block's version "+
+							"(Poseidon(STARKNET_STATE_V0, contractRoot, 0)); the update is accepted only with an OldRoot that no previous block stored",
+							name, t.OldRej[0], c.Blocks[t.OldRej[0]].Version, t.OldRej[0]-1, c.Blocks[t.OldRej[0]-1].Version, t.OldRejErr),
+						Replay: rep(func(c *StateCase) bool {
+							r := run(c)
+							return len(r.OldRej) > 0 && subsetOf(r.OldRej, formulaSwitches(c, !nw))
+						})}
+				})
+			} else {
+				sig := name + "-rejects-stored-old-root"
+				violateOnce(res, sig, func() lib.Violation {
+					return lib.Violation{Sig: sig,
+						What: fmt.Sprintf("core/%s.Update rejects a block whose OldRoot is the root stored for the previous block (blocks %v): %s", name, t.OldRej, t.OldRejErr),
+						Replay: rep(func(c *StateCase) bool {
+							r := run(c)
+							return len(r.OldRej) > 0 && !subsetOf(r.OldRej, formulaSwitches(c, !nw))
+						})}
+				})
+			}
+		}
+		for _, ch := range []struct {
+			t  *trace
+			nw bool
+			sw map[int]bool
+		}{{o.chN, true, sw}, {o.chO, false, swAlt}} {
+			if ch.t == nil || len(ch.t.OldStored) == 0 {
+				continue
+			}
+			t, nw := ch.t, ch.nw
+			sig := "finalise-stores-old-root-other-than-previous-block-root"
+			if subsetOf(t.OldStored, ch.sw) {
+				sig += "-at-commitment-formula-switch"
+			}
+			atSwitch := subsetOf(t.OldStored, ch.sw)
+			violateOnce(res, sig, func() lib.Violation {
+				return lib.Violation{Sig: sig,
+					What: fmt.Sprintf("Blockchain.Finalise (WithNewState=%v): the state update stored for block %d has an OldRoot that is not the GlobalStateRoot stored for block %d "+
+						"(updateStateRoots replaces the caller's OldRoot by the commitment recomputed under the new block's protocol version)", nw, t.OldStored[0], t.OldStored[0]-1),
+					Replay: rep(func(c *StateCase) bool {
+						r := runChain(c, nw)
+						return len(r.OldStored) > 0 && subsetOf(r.OldStored, formulaSwitches(c, !nw)) == atSwitch
+					})}
+			})
+		}
 		// dropped updates must leave no trace
 		if o.nw.Leak != "" {
 			violateOnce(res, "state-dropped-update-leaves-trace-in-database", func() lib.Violation {
@@ -1238,6 +1551,23 @@ func classifyState(res *lib.Result, c *StateCase) {
 		if len(b.Migrated) > 0 {
 			res.Hit("state:migrate-casm")
 		}
+		if len(b.DeclaredV0) > 0 {
+			res.Hit("state:declare-cairo0")
+		}
+		if len(b.NoDef) > 0 {
+			res.Hit("state:declared-without-definition")
+		}
+		if n > 0 && pre014(c.Blocks[n-1].Version) != pre014(b.Version) {
+			_, cr, clr := a.commitment(b.Version, false)
+			switch {
+			case clr.IsZero() && !cr.IsZero():
+				res.Hit("state:formula-switch:class-trie-empty")
+			case clr.IsZero():
+				res.Hit("state:formula-switch:state-empty")
+			default:
+				res.Hit("state:formula-switch:class-trie-nonempty")
+			}
+		}
 		before := map[string]int{}
 		for addr, ct := range a.contracts {
 			before[addr] = len(ct.storage)
@@ -1265,6 +1595,178 @@ func classifyState(res *lib.Result, c *StateCase) {
 			res.Hit("state:class-trie-empty")
 		} else {
 			res.Hit("state:class-trie-nonempty")
+		}
+	}
+}
+
+// ---- version-switch histories (explicit) -----------------------------------------------------------
+
+func versionSwitchCases() []*StateCase {
+	var out []*StateCase
+	dep := func(v string) SBlock { return SBlock{Version: v, Deployed: map[string]string{"abc": "c1a55"}} }
+	depDecl := func(v string) SBlock {
+		return SBlock{Version: v, Deployed: map[string]string{"abc": "c1a55"}, Declared: map[string]string{"c1a55": "ca5a1"}}
+	}
+	nonce := func(v string) SBlock { return SBlock{Version: v, Nonces: map[string]string{"abc": "1"}} }
+	decl := func(v string) SBlock { return SBlock{Version: v, Declared: map[string]string{"c1a56": "ca5a2"}} }
+	for _, vs := range [][2]string{{"0.13.2", "0.14.0"}, {"0.13.10", "0.14"}, {"", "0.14.1"}, {"0.9.9", "0.13.10"}, {"0.13.6", "0.13.6"}, {"0.14.0", "0.14.1"}, {"0.9.9", "0.14.0"}} {
+		a, b := vs[0], vs[1]
+		// class trie empty at the switch; the switch block changes a nonce / declares the first class / is empty
+		out = append(out, &StateCase{Blocks: []SBlock{dep(a), nonce(b)}})
+		out = append(out, &StateCase{Blocks: []SBlock{dep(a), decl(b), nonce(b)}})
+		out = append(out, &StateCase{Blocks: []SBlock{dep(a), {Version: b}, nonce(b)}})
+		// class trie non-empty at the switch
+		out = append(out, &StateCase{Blocks: []SBlock{depDecl(a), nonce(b), decl(b)}})
+		// empty state at the switch; only a system contract at the switch
+		out = append(out, &StateCase{Blocks: []SBlock{{Version: a}, dep(b), nonce(b)}})
+		out = append(out, &StateCase{Blocks: []SBlock{{Version: a, Storage: map[string]map[string]string{"1": {"7": "5"}}}, {Version: b, Storage: map[string]map[string]string{"1": {"8": "5"}}}}})
+		// dropped updates right at the switch
+		for _, mode := range []string{"close", "simulate", "badroot"} {
+			out = append(out, &StateCase{Blocks: []SBlock{dep(a),
+				{Version: b, Nonces: map[string]string{"abc": "2"}, Before: []Discarded{{Diff: nonce(b), Mode: mode, Reopen: mode == "close"}}}}})
+		}
+	}
+	// entries that do not change the abstract state: Cairo-0 declaration, declared-without-definition
+	out = append(out, &StateCase{Blocks: []SBlock{
+		{Version: "0.13.2", Deployed: map[string]string{"abc": "c1a55"}, DeclaredV0: []string{"c0c0"}, NoDef: map[string]string{"c1a57": "ca5a1"}},
+		{Version: "0.14.0", Declared: map[string]string{"c1a55": "ca5a1"}, NoDef: map[string]string{"c1a58": "ca5a1"}},
+	}})
+	return out
+}
+
+// ---- invalid diffs: the acceptance predicate of model and both backends ---------------------------------
+
+type invalidCase struct {
+	Kind string     `json:"kind"`
+	Case *StateCase `json:"case"` // the LAST block is invalid on the state before it
+}
+
+func genInvalidCases(r *lib.RNG, n int) []*invalidCase {
+	var out []*invalidCase
+	for i := 0; i < n; i++ {
+		rr := r.Fork(uint64(i))
+		c := genStateCase(rr, rr.Range(1, 3))
+		for bi := range c.Blocks {
+			c.Blocks[bi].Before = nil
+		}
+		a := newAbs()
+		for bi := range c.Blocks {
+			a.apply(&c.Blocks[bi])
+		}
+		ver := c.Blocks[len(c.Blocks)-1].Version
+		var existing, fresh []string
+		for addr := range a.contracts {
+			// (not a system address: an emptied system contract is purged by core/state and kept by
+			// core/deprecatedstate — the known finding — so "already deployed" is backend dependent there;
+			// deploying at 0x1/0x2 is outside the input space anyway, see notes)
+			if !isSystem(addr) {
+				existing = append(existing, addr)
+			}
+		}
+		sort.Strings(existing)
+		for _, addr := range []string{"1", "2", "def", "7ff"} {
+			if _, ok := a.contracts[addr]; !ok {
+				fresh = append(fresh, addr)
+			}
+		}
+		kinds := []string{"replace-undeployed", "nonce-undeployed", "storage-undeployed"}
+		if len(existing) > 0 {
+			kinds = append(kinds, "deploy-existing")
+		}
+		kind := lib.Pick(rr, kinds)
+		bad := SBlock{Version: ver}
+		// a valid part next to the invalid entry, so that "state is not updated" has something to lose
+		bad.Declared = map[string]string{"c1a5f": "ca5a1"}
+		switch kind {
+		case "deploy-existing":
+			bad.Deployed = map[string]string{lib.Pick(rr, existing): "c1a56"}
+		case "replace-undeployed":
+			bad.Replaced = map[string]string{lib.Pick(rr, fresh): "c1a56"}
+		case "nonce-undeployed":
+			bad.Nonces = map[string]string{lib.Pick(rr, fresh): "1"}
+		case "storage-undeployed":
+			bad.Storage = map[string]map[string]string{lib.Pick(rr, []string{"def", "7ff"}): {"1": "1"}}
+		}
+		c.Blocks = append(c.Blocks, bad)
+		out = append(out, &invalidCase{Kind: kind, Case: c})
+	}
+	return out
+}
+
+func checkInvalidDiffs(f lib.Flags, res *lib.Result, drv *lib.Driver, cases []*invalidCase) {
+	t0 := time.Now()
+	defer func() {
+		res.HitN("ms:state-invalid-diff", int(time.Since(t0).Milliseconds()))
+		if f.Out != "" {
+			_ = res.Write(f.Out)
+		}
+	}()
+	type outcome struct{ nw, old trace }
+	outs := make([]outcome, len(cases))
+	parallel(cases, func(i int, ic *invalidCase) {
+		var o outcome
+		if !lib.WithDeadline(deadline(), func() {
+			o.nw = runNewState(ic.Case)
+			o.old = runOldState(ic.Case)
+		}) {
+			res.Fatalf("invalid-diff case did not finish within the harness deadline")
+		}
+		outs[i] = o
+	})
+	var all []string
+	var lastIdx []int
+	if drv != nil {
+		for _, ic := range cases {
+			ls, bIdx, _ := stateModelLines(ic.Case, 0, true)
+			lastIdx = append(lastIdx, len(all)+bIdx[len(bIdx)-1])
+			all = append(all, ls...)
+		}
+	}
+	var ans []string
+	if drv != nil {
+		var err error
+		if ans, err = drv.AskAll(all); err != nil {
+			res.Fatalf("Lean driver died / answered short in family state-invalid-diff: %v", err)
+			ans = nil
+		}
+	}
+	for i, ic := range cases {
+		last := len(ic.Case.Blocks) - 1
+		key, _ := json.Marshal(ic)
+		res.Case("invalid:"+string(key), true)
+		res.Hit("family:state-invalid-diff")
+		res.Hit("state:invalid-diff:" + ic.Kind)
+		body, _ := json.Marshal(ic.Case)
+		rejected := func(t trace) (bool, string) {
+			pre := fmt.Sprintf("block %d:", last)
+			switch {
+			case strings.HasPrefix(t.Err, "panic"):
+				return false, t.Err
+			case strings.HasPrefix(t.Err, pre) && !strings.Contains(t.Err, "mismatch") && !strings.Contains(t.Err, "does not match"):
+				return true, ""
+			case t.Err == "":
+				return false, "accepted, root " + at(t.Roots, last)
+			default:
+				return false, t.Err
+			}
+		}
+		rn, wn := rejected(outs[i].nw)
+		ro, wo := rejected(outs[i].old)
+		if !rn || !ro {
+			sig := "state-accepts-invalid-diff"
+			if rn != ro {
+				sig = "state-backends-disagree-on-acceptance"
+			}
+			violateOnce(res, sig, func() lib.Violation {
+				return lib.Violation{Sig: sig, What: fmt.Sprintf("diff of kind %s must be rejected with an error and leave the state unchanged; core/state: %q, core/deprecatedstate: %q", ic.Kind, wn, wo),
+					Replay: replayBody{Kind: "state", State: body}}
+			})
+		}
+		if ans != nil {
+			res.Compared(1)
+			if (ans[lastIdx[i]] == "rejected") != rn {
+				res.Mismatch(lib.Mismatch{Sig: "state-acceptance", Input: ic, Model: clip(ans[lastIdx[i]]), Impl: fmt.Sprintf("rejected=%v %s", rn, wn)})
+			}
 		}
 	}
 }
